@@ -649,6 +649,25 @@ def replay_concrete(prog, cj, model, arrays, pos_names):
                 return True, info
         else:
             o64, j64a = o.astype(np.float64), j.astype(np.float64)
+            # an EXACT infinity of the reference (also infinite when evaluated in x64, i.e. not a
+            # single-precision overflow) must come back as the same infinity
+            with np.errstate(all="ignore"):
+                inf_bad = np.isinf(j64a) & ~(o64 == j64a)
+            if np.any(inf_bad):
+                if j64 is None:
+                    j64 = _jax64(prog, arrays)
+                if j64 is not None and len(j64) == len(jout):
+                    r_inf = np.asarray(j64[i], dtype=np.float64)
+                    if i in out_nchw and r_inf.ndim == 4:
+                        r_inf = np.transpose(r_inf, (0, 3, 1, 2))
+                    if r_inf.shape == j64a.shape and np.any(inf_bad & (r_inf == j64a)):
+                        info["why"] = f"output {i}: JAX returns an exact infinity, the model does not"
+                        return True, info
+                elif np.any(inf_bad & np.isfinite(o64) & (np.abs(o64) < 1e30)):
+                    # no x64 evaluation available (the callable pins float32 operands): a model value far
+                    # from the overflow threshold where JAX returns an infinity is not a rounding matter
+                    info["why"] = f"output {i}: JAX returns an infinity, the model a moderate finite value"
+                    return True, info
             fin = np.isfinite(j64a)
             strict64 = prog.x64 and not prog.meta.get("ref_narrow")
             if strict64:
